@@ -1,5 +1,6 @@
 import CwMt.Proofs.EngineInv
 import CwMt.Proofs.EngineB
+import CwMt.Proofs.EngineBig
 /-
   C11 — Code ids and contract addresses are unique, stable and usable.
   Model: CwMt/Model/Registry.lean (code registry) and `registerContract` of CwMt/Model/Engine.lean.
@@ -124,5 +125,36 @@ theorem registry_stable {E : Type} (cfg : Config E) (hf : ExtFrame cfg) (blk : B
     ∃ cd', ch'.contracts.get? c = some cd' ∧ cd'.creator = cd.creator ∧ cd'.label = cd.label ∧
       cd'.created = cd.created :=
   EngineInv.registry_stable cfg hf blk fuel ch ch' sender m tr tr' r h c cd hc
+
+/-! ### the complete rule of `WasmMsg::Instantiate(2)` as a fuel-free judgement (CwMt/Model/EngineBig.lean) -/
+
+/-- `WasmMsg::Instantiate(2)`: register, move the funds to the new address, run `instantiate` there, then its
+sub-messages; the data is always the instantiate-response encoding of the new address and the final data -/
+theorem instantiate_rule (cfg : Config E) (blk : Block) (ch : Chain E) (s : Addr) (admin : Option String)
+    (codeId : Nat) (m : Val) (funds : Coins) (label : String) (salt : Option Val) (o : Out E) :
+    Exec cfg blk ch s (.wasmInstantiate admin codeId m funds label salt) o ↔
+      (if label.isEmpty = true then o = .err else
+       match registerContract cfg ch codeId s admin label blk.height salt with
+       | .ok (addr, ch₀) =>
+         (match sendFunds ch₀ s addr funds with
+          | .ok ch₁ =>
+            (match (callContract cfg blk ch₁ addr (.instantiate ⟨s, funds⟩ m) []).1 with
+             | .ok (resp, ch₂) =>
+               ∃ o', Proc cfg blk ch₂ addr
+                   (buildAppResponse addr { ty := "instantiate", attrs := [contractAttr addr, ⟨"code_id", toString codeId⟩] } resp).1
+                   (buildAppResponse addr { ty := "instantiate", attrs := [contractAttr addr, ⟨"code_id", toString codeId⟩] } resp).2 o' ∧
+                 o = (match o' with
+                      | .ok (r, ch₃) => .ok ({ r with data := some (encodeInstantiateResponse addr (r.data.getD [])) }, ch₃)
+                      | other => other)
+             | .err => o = .err
+             | .panic => o = .panic
+             | .outOfFuel => False)
+          | .err => o = .err
+          | .panic => o = .panic
+          | .outOfFuel => False)
+       | .err => o = .err
+       | .panic => o = .panic
+       | .outOfFuel => False) :=
+  EngineBig.exec_wasm_instantiate cfg blk ch s admin codeId m funds label salt o
 
 end CwMt.C11
